@@ -534,4 +534,19 @@ theorem frozen_peerBytes {p q : Pipe} (h : Frozen p q) (hle : p.sent ≤ p.hande
   rw [hs, he, List.map_append, List.flatten_append]
   exact List.take_append_of_le_length hle
 
+theorem step_invalid (p : Pipe) (op : PipeOp) (h : p.valid = false) :
+    (p.step op).valid = false ∧ (p.step op).written = p.written := by
+  cases op <;> simp [step, onRequest, commit, sendComplete, peerClosed, kernel, writeError, h]
+
+theorem run_invalid (p : Pipe) (ops : List PipeOp) (h : p.valid = false) :
+    (p.run ops).valid = false ∧ (p.run ops).written = p.written := by
+  induction ops generalizing p with
+  | nil => exact ⟨h, rfl⟩
+  | cons op ops ih =>
+    have h1 := step_invalid p op h
+    have := ih (p.step op) h1.1
+    simp only [run, List.foldl_cons] at this ⊢
+    exact ⟨this.1, this.2.trans h1.2⟩
+
+
 end Tbox.C12
